@@ -557,6 +557,8 @@ class Uni:
                 ep.partial = m2.as_bytes()[:30]
                 return ok
             if act == "req_2048":
+                if ep.partial:
+                    return False          # (half a frame is pending: this read pattern does not apply)
                 # a request followed by one padded so that the read is exactly 2048 bytes long (the size the node asks recv for),
                 # with nothing behind it: a second recv would find the socket empty (EAGAIN)
                 m1, m2 = self.mk_req(ep, "req"), self.mk_req(ep, "req")
@@ -566,12 +568,16 @@ class Uni:
                 assert len(m1.as_bytes()) + len(m2.as_bytes()) == 2048
                 return self.push(ep, [(m1, "req"), (m2, "req")])
             if act == "req_eof_lag":
+                if ep.partial:
+                    return False          # (half a frame is pending: this read pattern does not apply)
                 # a request and the end of the connection, both seen by the I/O thread before the reader thread gets to run:
                 # the request is dispatched on a connection that has already been removed
                 m1 = self.mk_req(ep, "req")
                 ok = self.push(ep, [(m1, "req")], chunks=[m1.as_bytes(), b""], ends=True)
                 return ok
             if act == "req_lag":
+                if ep.partial:
+                    return False          # (half a frame is pending: this read pattern does not apply)
                 # two requests arriving as three network reads (cuts inside the second header and inside its body) which the
                 # I/O thread has all received before the connection's reader thread gets to run
                 m1, m2 = self.mk_req(ep, "req"), self.mk_req(ep, "req")
